@@ -54,6 +54,10 @@ def _mk(case):
     if case.get('bfill', FILL) is not None:
         f = case.get('bfill', FILL)
         kw['fill_value'] = int(f) if case.get('dtype') in ('int64', 'int32') else float(f)
+        if not case.get('dtype') and case.get('fillk') in ('int', 'bool') and float(f) == int(f):
+            # an integer / bool fill value with the DEFAULT dtype: the storage stays double (rd checks the dtype of
+            # every read), the fill value only says what invalid samples look like
+            kw['fill_value'] = bool(f) if (case['fillk'] == 'bool' and f in (0, 1)) else int(f)
     if case.get('dtype'):
         kw['dtype'] = DT[case['dtype']]
     if ch > 1 or case.get('twod'):
@@ -558,6 +562,7 @@ def _config(rng, fs=None):
         cfg['twod'] = rng.random() < 0.25
     cfg['dtype'] = rng.choice([None, None, None, 'float32', 'int64', 'int32'])
     cfg['bfill'] = rng.choice([FILL, 0] if cfg['dtype'] in ('int64', 'int32') else [FILL, 0, None])
+    cfg['fillk'] = rng.choice(['float', 'int', 'bool'])
     return cfg
 
 
